@@ -565,12 +565,21 @@ func staleDefaultTime(x *mon.Ctx) {
 	time.Sleep(time.Until(exp.Add(2 * time.Second)))
 	errShared := verify.RawTdxQuote(raw, shared)
 	errAfterFailure := verify.RawTdxQuote(raw, sharedAfterFailure)
+	wallBefore := time.Now().Round(0) // wall clock only (what the library compares with notAfter)
 	errFresh := verify.RawTdxQuote(raw, mk())
+	wallAfter := time.Now().Round(0)
 	wit := map[string]any{"leaf_not_after": exp, "first_call": t1, "second_call": time.Now(), "shared_err": fmt.Sprint(errShared), "fresh_err": fmt.Sprint(errFresh)}
 	if errFresh == nil {
-		x.Inconclusive("stale-default-time: fresh options accepted an expired chain with default times (clock moved?)")
+		if wallBefore.After(exp.Add(time.Second)) && wallAfter.After(exp.Add(time.Second)) && !wallAfter.Before(wallBefore) {
+			// the wall clock was past the leaf's notAfter before and after the call: no time step explains the acceptance
+			x.Violation("stale-default-time", "fresh-options-after-expiry", fmt.Sprintf("Options.Now left nil: the PCK leaf expired at %v; a call made between %v and %v (wall clock) with a FRESH options value accepts the quote — the same chain was accepted %v earlier in this process, before it expired", exp.Format(time.RFC3339), wallBefore.Format(time.RFC3339Nano), wallAfter.Format(time.RFC3339Nano), time.Since(t1).Round(time.Millisecond)), "none", wit)
+			x.Note("stale-default-time", "fresh-options-after-expiry", true, false, true)
+			return
+		}
+		x.Inconclusive("stale-default-time: fresh options accepted an expired chain with default times and the wall clock was stepped")
 		return
 	}
+	x.Note("stale-default-time", "fresh-options-after-expiry", false, false, true)
 	if (errShared == nil) != (errFresh == nil) {
 		x.Violation("stale-default-time", "", fmt.Sprintf("Options.Now left nil: after the leaf expired the re-used options value still accepts (err=%v) while a fresh value rejects (%v): the default time of the first call was persisted in the caller's options", errShared, errFresh), "none", wit)
 	}
